@@ -1,4 +1,183 @@
+(* Properties/C02.v — "Multiplication is exact: low half, overflow flag and full
+   double-width product".  Statements only; proofs are in Proofs/Mul.v (+ Proofs/MulAux.v).
+   Notation in comments: A = uval w a, B = uval w b, C = uval w c, SA = sval w a, SB = sval w b,
+   M = Mod w n = 2^(w*n). *)
 From Bnum Require Import Base Prim.
-Theorem C02_placeholder : forall w n ds, 0 <= w -> wf w n ds -> 0 <= uval w ds < Mod w n.
-Proof. exact uval_bounds. Qed.
-Print Assumptions C02_placeholder.
+From Bnum.Model Require Import Digit Core Shift AddSub Mul.
+From Bnum.Proofs Require Import MulAux Mul.
+
+(* ---------- 1. long_mul / U.overflowing_mul ---------- *)
+
+Theorem C02_long_mul : forall w n a b, 0 < w -> wf w n a -> wf w n b ->
+  let '(r, f) := long_mul w a b in
+  wf w n r /\ uval w r = (uval w a * uval w b) mod Mod w n /\
+  f = (Mod w n <=? uval w a * uval w b).
+Proof. exact long_mul_ok. Qed.
+Print Assumptions C02_long_mul.
+
+Theorem C02_U_overflowing_mul : forall w n a b, 0 < w -> wf w n a -> wf w n b ->
+  let '(r, f) := U_overflowing_mul w a b in
+  wf w n r /\ uval w r = (uval w a * uval w b) mod Mod w n /\
+  f = (Mod w n <=? uval w a * uval w b).
+Proof. exact U_overflowing_mul_ok. Qed.
+Print Assumptions C02_U_overflowing_mul.
+
+(* ---------- 2. full double-width product ---------- *)
+
+Theorem C02_U_widening_mul : forall w n a b, 0 < w -> wf w n a -> wf w n b ->
+  let '(lo, hi) := U_widening_mul w a b in
+  wf w n lo /\ wf w n hi /\ uval w lo + Mod w n * uval w hi = uval w a * uval w b.
+Proof. exact U_widening_mul_ok. Qed.
+Print Assumptions C02_U_widening_mul.
+
+Theorem C02_U_carrying_mul : forall w n a b c, 0 < w -> wf w n a -> wf w n b -> wf w n c ->
+  let '(lo, hi) := U_carrying_mul w a b c in
+  wf w n lo /\ wf w n hi /\
+  uval w lo + Mod w n * uval w hi = uval w a * uval w b + uval w c.
+Proof. exact U_carrying_mul_ok. Qed.
+Print Assumptions C02_U_carrying_mul.
+
+(* ---------- 4a. unsigned projections ---------- *)
+
+Theorem C02_U_checked_mul : forall w n a b, 0 < w -> wf w n a -> wf w n b ->
+  match U_checked_mul w a b with
+  | None => Mod w n <= uval w a * uval w b
+  | Some r => wf w n r /\ uval w r = uval w a * uval w b /\ uval w a * uval w b < Mod w n
+  end.
+Proof. exact U_checked_mul_ok. Qed.
+Print Assumptions C02_U_checked_mul.
+
+Theorem C02_U_wrapping_mul : forall w n a b, 0 < w -> wf w n a -> wf w n b ->
+  wf w n (U_wrapping_mul w a b) /\
+  uval w (U_wrapping_mul w a b) = (uval w a * uval w b) mod Mod w n.
+Proof. exact U_wrapping_mul_ok. Qed.
+Print Assumptions C02_U_wrapping_mul.
+
+Theorem C02_U_saturating_mul : forall w n a b, 0 < w -> wf w n a -> wf w n b ->
+  wf w n (U_saturating_mul w a b) /\
+  uval w (U_saturating_mul w a b) = Z.min (Mod w n - 1) (uval w a * uval w b).
+Proof. exact U_saturating_mul_ok. Qed.
+Print Assumptions C02_U_saturating_mul.
+
+Theorem C02_U_strict_mul : forall w n a b, 0 < w -> wf w n a -> wf w n b ->
+  match U_strict_mul w a b with
+  | Panic => Mod w n <= uval w a * uval w b
+  | Ret r => wf w n r /\ uval w r = uval w a * uval w b /\ uval w a * uval w b < Mod w n
+  end.
+Proof. exact U_strict_mul_ok. Qed.
+Print Assumptions C02_U_strict_mul.
+
+(* overflow: panic under debug assertions, wrapped result otherwise; no overflow: exact *)
+Theorem C02_U_mul : forall dbg w n a b, 0 < w -> wf w n a -> wf w n b ->
+  match U_mul dbg w a b with
+  | Panic => dbg = true /\ Mod w n <= uval w a * uval w b
+  | Ret r => wf w n r /\ uval w r = (uval w a * uval w b) mod Mod w n /\
+             (dbg = true -> uval w a * uval w b < Mod w n /\ uval w r = uval w a * uval w b)
+  end.
+Proof. exact U_mul_ok. Qed.
+Print Assumptions C02_U_mul.
+
+(* ---------- 3. signed multiplication (covers MIN * -1 and x * MIN) ---------- *)
+
+Theorem C02_I_overflowing_mul : forall w n a b, 0 < w -> (0 < n)%nat -> wf w n a -> wf w n b ->
+  let '(r, f) := I_overflowing_mul w a b in
+  wf w n r /\ sval w r = wrapS (Mod w n) (sval w a * sval w b) /\
+  f = negb (inS (Mod w n) (sval w a * sval w b)).
+Proof. exact I_overflowing_mul_ok. Qed.
+Print Assumptions C02_I_overflowing_mul.
+
+(* the AddSub facts the signed proof rests on, proved in Proofs/MulAux.v *)
+Theorem C02_I_unsigned_abs : forall w n a, 0 < w -> (0 < n)%nat -> wf w n a ->
+  wf w n (I_unsigned_abs w a) /\ uval w (I_unsigned_abs w a) = Z.abs (sval w a).
+Proof. exact I_unsigned_abs_spec. Qed.
+Print Assumptions C02_I_unsigned_abs.
+
+Theorem C02_I_checked_neg : forall w n a, 0 < w -> (0 < n)%nat -> wf w n a ->
+  match I_checked_neg w a with
+  | None => sval w a = - (Mod w n / 2)
+  | Some r => wf w n r /\ sval w r = - sval w a /\ sval w a <> - (Mod w n / 2)
+  end.
+Proof. exact I_checked_neg_spec. Qed.
+Print Assumptions C02_I_checked_neg.
+
+(* ---------- 4b. signed projections ---------- *)
+
+Theorem C02_I_checked_mul : forall w n a b, 0 < w -> (0 < n)%nat -> wf w n a -> wf w n b ->
+  match I_checked_mul w a b with
+  | None => sval w a * sval w b < - (Mod w n / 2) \/ Mod w n / 2 <= sval w a * sval w b
+  | Some r => wf w n r /\ sval w r = sval w a * sval w b /\
+              - (Mod w n / 2) <= sval w a * sval w b < Mod w n / 2
+  end.
+Proof. exact I_checked_mul_ok. Qed.
+Print Assumptions C02_I_checked_mul.
+
+Theorem C02_I_wrapping_mul : forall w n a b, 0 < w -> (0 < n)%nat -> wf w n a -> wf w n b ->
+  wf w n (I_wrapping_mul w a b) /\
+  sval w (I_wrapping_mul w a b) = wrapS (Mod w n) (sval w a * sval w b).
+Proof. exact I_wrapping_mul_ok. Qed.
+Print Assumptions C02_I_wrapping_mul.
+
+(* saturates toward the sign of the exact product *)
+Theorem C02_I_saturating_mul : forall w n a b, 0 < w -> (0 < n)%nat -> wf w n a -> wf w n b ->
+  wf w n (I_saturating_mul w a b) /\
+  sval w (I_saturating_mul w a b) =
+    Z.max (- (Mod w n / 2)) (Z.min (Mod w n / 2 - 1) (sval w a * sval w b)).
+Proof. exact I_saturating_mul_ok. Qed.
+Print Assumptions C02_I_saturating_mul.
+
+Theorem C02_I_strict_mul : forall w n a b, 0 < w -> (0 < n)%nat -> wf w n a -> wf w n b ->
+  match I_strict_mul w a b with
+  | Panic => sval w a * sval w b < - (Mod w n / 2) \/ Mod w n / 2 <= sval w a * sval w b
+  | Ret r => wf w n r /\ sval w r = sval w a * sval w b /\
+             - (Mod w n / 2) <= sval w a * sval w b < Mod w n / 2
+  end.
+Proof. exact I_strict_mul_ok. Qed.
+Print Assumptions C02_I_strict_mul.
+
+Theorem C02_I_mul : forall dbg w n a b, 0 < w -> (0 < n)%nat -> wf w n a -> wf w n b ->
+  match I_mul dbg w a b with
+  | Panic => dbg = true /\
+             (sval w a * sval w b < - (Mod w n / 2) \/ Mod w n / 2 <= sval w a * sval w b)
+  | Ret r => wf w n r /\ sval w r = wrapS (Mod w n) (sval w a * sval w b) /\
+             (dbg = true -> - (Mod w n / 2) <= sval w a * sval w b < Mod w n / 2 /\
+                            sval w r = sval w a * sval w b)
+  end.
+Proof. exact I_mul_ok. Qed.
+Print Assumptions C02_I_mul.
+
+(* ---------- the hypothesis sets are satisfiable (w = 8, n = 3) ---------- *)
+
+(* unsigned binary: 0xFFFFFF * 2 overflows, low half 0xFFFFFE *)
+Example C02_ex_unsigned :
+  0 < 8 /\ wf 8 3 [255; 255; 255] /\ wf 8 3 [2; 0; 0] /\
+  U_overflowing_mul 8 [255; 255; 255] [2; 0; 0] = ([254; 255; 255], true) /\
+  U_widening_mul 8 [255; 255; 255] [2; 0; 0] = ([254; 255; 255], [1; 0; 0]) /\
+  U_saturating_mul 8 [255; 255; 255] [2; 0; 0] = [255; 255; 255].
+Proof.
+  split; [reflexivity|]. split; [apply wfb_wf; reflexivity|]. split; [apply wfb_wf; reflexivity|].
+  vm_compute. repeat split.
+Qed.
+Print Assumptions C02_ex_unsigned.
+
+(* unsigned ternary: MAX * MAX + MAX = M*M - M, i.e. (lo, hi) = (0, MAX) *)
+Example C02_ex_carrying :
+  0 < 8 /\ wf 8 3 [255; 255; 255] /\ wf 8 3 [255; 255; 255] /\ wf 8 3 [255; 255; 255] /\
+  U_carrying_mul 8 [255; 255; 255] [255; 255; 255] [255; 255; 255] = ([0; 0; 0], [255; 255; 255]).
+Proof.
+  split; [reflexivity|]. split; [apply wfb_wf; reflexivity|]. split; [apply wfb_wf; reflexivity|].
+  split; [apply wfb_wf; reflexivity|]. vm_compute. reflexivity.
+Qed.
+Print Assumptions C02_ex_carrying.
+
+(* signed: MIN * -1 overflows and wraps to MIN; saturates to MAX; 3 * -5 = -15 exactly *)
+Example C02_ex_signed :
+  0 < 8 /\ (0 < 3)%nat /\ wf 8 3 [0; 0; 128] /\ wf 8 3 [255; 255; 255] /\
+  I_overflowing_mul 8 [0; 0; 128] [255; 255; 255] = ([0; 0; 128], true) /\
+  I_saturating_mul 8 [0; 0; 128] [255; 255; 255] = [255; 255; 127] /\
+  I_overflowing_mul 8 [3; 0; 0] [251; 255; 255] = ([241; 255; 255], false).
+Proof.
+  split; [reflexivity|]. split; [repeat constructor|].
+  split; [apply wfb_wf; reflexivity|]. split; [apply wfb_wf; reflexivity|].
+  vm_compute. repeat split.
+Qed.
+Print Assumptions C02_ex_signed.
